@@ -7,7 +7,7 @@ import struct
 from pathlib import Path
 
 from vf.core import SECTOR, BytesModel, ConcatModel, Model, as_handle, rng_for
-from vf.diskcheck import compare_reads, continuation_reads, fault_retry_reads, crossing_count, gen_requests
+from vf.diskcheck import two_readers, compare_reads, continuation_reads, fault_retry_reads, crossing_count, gen_requests
 from vf.monitors import call
 from vf.writers import hds as w
 
@@ -240,12 +240,14 @@ def run(case: dict, ctx) -> dict:
         w.write_hdd_dir(hd, [{"start": 0, "end": nsec, "images": [{"guid": g, "type": "Plain", "file": "p.hdd.0.hds"}]}],
                         [(g, w.NULL_GUID)], files={"p.hdd.0.hds": raw})
         model = BytesModel(raw)
-        o = call(lambda: HDD(Path(hd)).open())
+        hobj = call(lambda: HDD(Path(hd)))
+        o = call(lambda: hobj.value.open())
         if not o.ok:
             res["viol"].append({"what": f"open failed on plain image: {o.brief()}", "mech": MECH, "detail": {"tb": o.tb}})
             return res
         reqs, _ = gen_requests(rng, model.size, [SECTOR, 8192], n_random=30)
         compare_reads(o.value, model, reqs, res, MECH)
+        two_readers(o.value, lambda: hobj.value.open(), model, rng, res, MECH)
         res["cnt"]["plain_cases"] = 1
         res["nontrivial"] = nsec > 1
         res["sig"] = ("plain", nsec)
@@ -281,7 +283,8 @@ def run(case: dict, ctx) -> dict:
         w.write_hdd_dir(hd, [{"start": 0, "end": meta["size"] // SECTOR, "images": [{"guid": g, "type": "Compressed", "file": fn}]}],
                         [(g, w.NULL_GUID)], files={fn: sf})
         target = Path(hd) if rng.random() < 0.7 else Path(hd) / "DiskDescriptor.xml"
-        o = call(lambda: HDD(target).open())
+        hobj = call(lambda: HDD(target))
+        o = call(lambda: hobj.value.open())
         fh = None
     if not o.ok:
         res["viol"].append({"what": f"open failed on conformant image: {o.brief()}", "mech": MECH, "detail": {"tb": o.tb}})
@@ -297,6 +300,8 @@ def run(case: dict, ctx) -> dict:
     continuation_reads(st, model, reqs, rng, res, MECH)
     fault_retry_reads(st, model, reqs, rng, res, MECH)
     compare_reads(st, model, reqs, res, MECH)
+    if k == "hdd":
+        two_readers(st, lambda: hobj.value.open(), model, rng, res, MECH)
     if fh is not None and fh.mutations:
         res["viol"].append({"what": "handle mutated", "mech": "c09.handle", "detail": {"m": fh.mutations[:3]}})
     states = meta["states"]
